@@ -460,11 +460,12 @@ def _solve(i):
     t0 = time.time()
     r = s.check()
     tries = 0
-    while r == z3.unknown and tries < 3:
-        # incomplete quantifier reasoning can give up early: retry with another seed (never turns sat into unsat)
+    while r == z3.unknown and tries < 5:
+        # incomplete quantifier reasoning can give up early, and a busy machine can eat the wall-clock budget: retry with
+        # another seed and a longer budget (never turns sat into unsat)
         tries += 1
         s2 = z3.Solver()
-        s2.set("timeout", 20000)
+        s2.set("timeout", 60000 if tries < 4 else 180000)
         s2.set("random_seed", 17 * tries)
         s2.add(*s.assertions())
         r = s2.check()
